@@ -270,7 +270,7 @@ func (f *Flow) Eval(pid string, params []uint64, decide func(id string) string) 
 			r.State[i] = StFailed
 			r.AnyFail = true
 			r.FailTasks = append(r.FailTasks, i)
-		case probe.Fail, probe.Panic:
+		case probe.Fail, probe.Panic, probe.GateFail:
 			if t.Fallback {
 				fallback()
 			} else {
